@@ -27,7 +27,7 @@ EXTENDS Integers, Sequences, FiniteSets, TLC, Json, IOUtils
 
 CONSTANTS
     NBase,      \* base coins are 1..NBase (attributes in BaseAttr)
-    MaxSends,   \* created transactions; the change coin of send i is NBase + i
+    MaxSends,   \* created transactions; the change coin of send i is NBase + i, its self-payment coin (SendSelf) NBase + MaxSends + i
     MaxTip,     \* blocks mined during a behaviour
     Mat,        \* coinbase maturity (the driver uses the same value)
     Answers,    \* subset of {"accepted","inmempool","rejected","notifyfail1","notifyfail2","badlabel"} (badlabel: the request carries a label the store refuses)
@@ -64,13 +64,19 @@ state == <<st, spentBy, sends, tip, locked, leased>>
 vars  == <<st, spentBy, sends, tip, locked, leased, hist>>
 
 Base  == 1..NBase
-Coin  == 1..(NBase + MaxSends)
-IsChange(c) == c > NBase
+Coin  == 1..(NBase + 2 * MaxSends)
+IsChange(c) == c > NBase                 \* created by a wallet transaction: its change, or a payment to the wallet itself
+IsSelf(c)   == c > NBase + MaxSends      \* ... the latter
+SendOf(c)   == IF IsSelf(c) THEN c - NBase - MaxSends ELSE c - NBase
 \* attributes of a coin; change goes to the internal branch of the request's scope and account
-Attr(c) == IF IsChange(c)
+\* a self-payment goes to an external address of account 0 in the bip84 scope
+Attr(c) == IF IsSelf(c)
+           THEN [acct |-> 0, scope |-> "bip84", val |-> 0, cb |-> FALSE]
+           ELSE IF IsChange(c)
            THEN [acct |-> sends[c - NBase].acct, scope |-> sends[c - NBase].scope, val |-> 0, cb |-> FALSE]
            ELSE BaseAttr(c)
-Exists(c) == IF IsChange(c) THEN c - NBase <= Len(sends) /\ sends[c - NBase].change /\ st[c] # -1
+Exists(c) == IF IsSelf(c) THEN SendOf(c) <= Len(sends) /\ sends[SendOf(c)].self /\ st[c] # -1
+             ELSE IF IsChange(c) THEN c - NBase <= Len(sends) /\ sends[c - NBase].change /\ st[c] # -1
              ELSE st[c] # -1
 Confs(c) == IF st[c] <= 0 THEN 0 ELSE tip - st[c] + 1
 
@@ -117,7 +123,7 @@ Obs == [ tip |-> tip,
          st |-> st, spentBy |-> spentBy,
          spendable |-> Spendable,
          bal |-> [mc \in 0..(Mat+1) |-> Counts(mc)],
-         sends |-> [i \in 1..Len(sends) |-> [status |-> sends[i].status, ins |-> sends[i].ins, change |-> sends[i].change]],
+         sends |-> [i \in 1..Len(sends) |-> [status |-> sends[i].status, ins |-> sends[i].ins, change |-> sends[i].change, self |-> sends[i].self]],
          unconfSends |-> {i \in 1..Len(sends) : sends[i].status = 0},
          locked |-> locked, leased |-> leased ]
 
@@ -173,11 +179,23 @@ Release(c, id) ==
     /\ Step("Release", [c |-> c, id |-> id], "ok")
 
 (* the effect of a created transaction that stays recorded *)
-Record(acct, scope, ins) ==
+RecordS(acct, scope, ins, self) ==
     LET i == Len(sends) + 1 IN
-    /\ sends' = Append(sends, [acct |-> acct, scope |-> scope, ins |-> ins, change |-> TRUE, status |-> 0])
+    /\ sends' = Append(sends, [acct |-> acct, scope |-> scope, ins |-> ins, change |-> TRUE, self |-> self, status |-> 0])
     /\ spentBy' = [c \in Coin |-> IF c \in ins THEN i ELSE spentBy[c]]
-    /\ st' = [st EXCEPT ![NBase + i] = 0]
+    /\ st' = [st EXCEPT ![NBase + i] = 0, ![NBase + MaxSends + i] = IF self THEN 0 ELSE -1]
+Record(acct, scope, ins) == RecordS(acct, scope, ins, FALSE)
+
+(* A transaction that pays a foreign party, the wallet itself (a fresh       *)
+(* external address of account 0) and change: two wallet credits, one of     *)
+(* them change, in an order the wallet randomises.                            *)
+SendSelf(acct, scope, mc) ==
+    /\ Len(sends) < MaxSends
+    /\ LET E == Eligible(acct, scope, mc) IN
+       /\ NumBase(E) >= 1
+       /\ RecordS(acct, scope, TopK(E, 1), TRUE)
+       /\ UNCHANGED <<tip, locked, leased>>
+       /\ Step("SendSelf", [acct |-> acct, scope |-> scope, mc |-> mc, n |-> Len(sends) + 1, ins |-> TopK(E, 1), elig |-> E], "ok")
 
 (* Send with automatic (largest-first) selection of exactly the k largest    *)
 (* eligible coins; k = number of eligible base coins + 1 asks for more than  *)
@@ -269,16 +287,16 @@ Restart ==
 RECURSIVE Doomed(_)
 Doomed(F) ==
     LET more == {j \in 1..Len(sends) : sends[j].status = 0 /\ j \notin F
-                                         /\ \E k \in F : (NBase + k) \in sends[j].ins}
+                                         /\ \E k \in F : (NBase + k) \in sends[j].ins \/ (NBase + MaxSends + k) \in sends[j].ins}
     IN  IF more = {} THEN F ELSE Doomed(F \cup more)
 RestartRej(i) ==
     /\ i \in 1..Len(sends) /\ sends[i].status = 0
     /\ LET F == Doomed({i}) IN
        /\ sends' = [k \in 1..Len(sends) |-> IF k \in F THEN [sends[k] EXCEPT !.status = -1] ELSE sends[k]]
        /\ spentBy' = [c \in Coin |-> IF spentBy[c] \in F THEN 0 ELSE spentBy[c]]
-       /\ st' = [c \in Coin |-> IF IsChange(c) /\ (c - NBase) \in F THEN -1 ELSE st[c]]
+       /\ st' = [c \in Coin |-> IF IsChange(c) /\ SendOf(c) \in F THEN -1 ELSE st[c]]
        /\ locked' = {}
-       /\ leased' = [c \in Coin |-> IF IsChange(c) /\ (c - NBase) \in F THEN 0 ELSE leased[c]]   \* a lease on an output that no longer exists is not listed
+       /\ leased' = [c \in Coin |-> IF IsChange(c) /\ SendOf(c) \in F THEN 0 ELSE leased[c]]   \* a lease on an output that no longer exists is not listed
        /\ UNCHANGED tip
        /\ Step("RestartRej", [n |-> i, forgotten |-> F], "ok")
 
@@ -290,6 +308,7 @@ Next ==
     \/ On("Send") /\ \E acct \in Accts, scope \in Scopes, mc \in 0..2, k \in 1..3, ans \in Answers : Send(acct, scope, mc, k, ans)
     \/ On("SendExplicit") /\ \E acct \in Accts, scope \in Scopes, mc \in 0..1, S \in SUBSET Coin : Cardinality(S) <= 2 /\ SendExplicit(acct, scope, mc, S)
     \/ On("SendExplicit") /\ \E acct \in Accts, scope \in Scopes, c \in Base : SendDup(acct, scope, 0, c)
+    \/ On("SendSelf") /\ \E acct \in Accts, scope \in Scopes, mc \in 0..1 : SendSelf(acct, scope, mc)
     \/ On("FundOwn") /\ \E acct \in Accts, scope \in Scopes, c \in Base : FundOwn(acct, scope, 1, {c})
     \/ On("FundOwn") /\ \E acct \in Accts, scope \in Scopes, c, d \in Base :
            /\ c < d /\ BaseAttr(c).acct = acct /\ BaseAttr(d).acct = acct
@@ -336,6 +355,6 @@ EmitOffset == IF "VERIF_EMIT_OFFSET" \in DOMAIN IOEnv THEN atoi(IOEnv.VERIF_EMIT
 \* vacuity probe: with VERIF_NEVER_OP set this invariant is violated as soon as that operation is taken
 NeverOp    == ("VERIF_NEVER_OP" \in DOMAIN IOEnv) => (hist = <<>> \/ hist[Len(hist)].op # IOEnv.VERIF_NEVER_OP)
 Sampled    == EmitEvery <= 1 \/ TLCGet("generated") % EmitEvery = EmitOffset % EmitEvery
-EmitStep  == Sampled => PrintT(<<"TRACE", ToJson([mat |-> Mat, nbase |-> NBase, steps |-> hist', pre |-> Obs, exp |-> Obs'])>>)
-EmitFull  == (Len(hist) >= MaxHist) => PrintT(<<"TRACE", ToJson([mat |-> Mat, nbase |-> NBase, steps |-> hist])>>)
+EmitStep  == Sampled => PrintT(<<"TRACE", ToJson([mat |-> Mat, nbase |-> NBase, maxsends |-> MaxSends, steps |-> hist', pre |-> Obs, exp |-> Obs'])>>)
+EmitFull  == (Len(hist) >= MaxHist) => PrintT(<<"TRACE", ToJson([mat |-> Mat, nbase |-> NBase, maxsends |-> MaxSends, steps |-> hist])>>)
 =============================================================================
